@@ -12,6 +12,7 @@ the property's own "offered action objects themselves, or explicit hints where a
 for flags that are off - the regions of the recorded defects C15-F1…F4.
 -/
 import CobaVerif.Lemmas.C15
+import CobaVerif.Lemmas.C15Hist
 
 namespace Coba.C15
 
@@ -186,5 +187,61 @@ theorem pinned_sparseRows_counterexample :
 theorem fixed_sparseRows :
     lensOf (predict Fixes.all (scripted { fmt := .A, kw := false, layout := .row } (exPol (fun i => i) (fun _ => 0) 2)) (initState 1)
       (.batch (ctxs 2) [[exSparse "f0" 1, exSparse "f1" 2], [exSparse "f0" 1, exSparse "f1" 2]])) = some (2, 2) := fixed_sparseRows'
+
+
+/-! ### Phase 2: whole histories, kwargs as finite maps, score, PMF draws end to end -/
+
+/-- **history_roundtrip.**  For ANY sequence of interactions (all unbatched, or all batched) of a learner that answers
+consistently in one documented format, evaluated as SequentialCB does (`predict`, then `learn` with what predict
+returned): interaction by interaction the parsed (action, prob, kwargs) is the intended one - on the actions the learner is
+given, generator state and memoised layout/format threaded through - and every `learn` receives the action, probability,
+reward and the kwargs of its own predict (one call with a column per key, or per row that row's finite map).  By
+induction over the history from `inv_preserved` and the per-call theorems. -/
+theorem history_roundtrip (fx : Fixes) (sp : Spec) (pol : Policy) (batched : Bool) (h : List (Arg × PyVal)) (st : State)
+    (hinv : Inv sp batched st) (hok : histOK fx sp pol batched st h = true) :
+    HistDelivers fx sp pol st h (runHistory fx (scripted sp pol) (sp.layout != .single) st h) :=
+  history_roundtrip' fx sp pol batched h st hinv hok
+
+/-- **kwargs are finite maps** (no "same key order" hypothesis any more: `sameKeys` only asks for the same key SET):
+whatever order the rows list their keys in, what row j gets back - the j-th entry of every column under the first row's
+keys - is, as a finite map, the kwargs the learner gave for row j. -/
+theorem kwargs_row_map (sp : Spec) (R : Rows) (hk : sp.kw = true) (hs : sameKeys R = true) (j : Nat) (r : Answer × List PyVal)
+    (hj : R[j]? = some r) :
+    kwEquiv (wantKw sp R).1 ((wantKw sp R).2.map (fun c => c.getD j .none)) r.1.kwKeys r.1.kwVals :=
+  kwargs_row_map' sp R hk hs j r hj
+
+/-- **score_roundtrip.**  `SafeLearner.score(context, actions, action)`: unbatched the learner's score comes back as is;
+for a batch a learner that takes batches is asked once and its sequence of per-row scores is accepted as is, a learner
+that raises on batches is asked once per row (`zip(context, actions, action)`) and the scores come back in row order;
+the memo `_method['score']` ends up 1 resp. 2 and keeps that value. -/
+theorem score_roundtrip (fx : Fixes) (pol : Policy) (batchable tup : Bool) (m : Option Nat) (hm : ScoreInv batchable m) :
+    (∀ c as x, m ≠ some 2 → score fx (some (scriptedScore pol batchable tup)) m (.single c as x) = .ok (scoreOf pol c as x, 1)) ∧
+    (∀ cs rows acts, cs ≠ [] → rows.length = cs.length → acts.length = cs.length →
+        (∀ c a x, (scoreOf pol c a x).isDict = false) →
+        ∃ v, score fx (some (scriptedScore pol batchable tup)) m (.batch cs rows acts) = .ok (v, if batchable then 1 else 2) ∧
+          v.items = some (scoresOf pol cs rows acts)) :=
+  score_roundtrip' fx pol batchable tup m hm
+
+/-- **PMF draws, end to end** (repaired code, fresh SafeLearner with `seed`): `predict` returns the member of the
+float-copied action list at the index C05's `choicew` (theorem `C05.choicew_weight`) draws from the PMF's rational weights
+with the seed's first uniform; that member is the offered action at that index or a float `==` to it (the copy of 0/1/bool);
+the probability is the PMF's own entry there and positive; exactly one uniform is consumed. -/
+theorem pmf_draw_end_to_end (sp : Spec) (pol : Policy) (seed : Int) (c : PyVal) (as : List PyVal)
+    (hk : sp.fmt.kind = .PM)
+    (hfirst : firstRowOK Fixes.all sp (pol c (safeRow 0 as)) (safeRow 0 as) = true)
+    (hvalid : validPmf (pol c (safeRow 0 as)).pmf (safeRow 0 as) = true) :
+    ∃ (qs : List Rat) (i : Nat) (a' a p : PyVal) (q : Rat) (r : Result) (st' : State),
+      predict Fixes.all (scripted sp pol) (initState seed) (.single c as) = .ok (r, st') ∧ r.a = a' ∧ r.p = p ∧
+      toRats (pol c (safeRow 0 as)).pmf = some qs ∧
+      Coba.C05.choicew (Coba.C05.normInt seed) as.length (some qs) = .ok (Coba.C05.next (Coba.C05.normInt seed), i, q) ∧
+      (safeRow 0 as)[i]? = some a' ∧ as[i]? = some a ∧ (a' = a ∨ pyEq a' a = true) ∧
+      (pol c (safeRow 0 as)).pmf[i]? = some p ∧ p.num = some q ∧ 0 < q ∧
+      st'.rng = Coba.C05.next (Coba.C05.normInt seed) :=
+  pmf_draw_end_to_end' sp pol seed c as hk hfirst hvalid
+
+/-- the hypotheses of `history_roundtrip` are satisfiable: two row-major (action, prob) batches with kwargs -/
+example : histOK Fixes.all { fmt := .AP, kw := true, layout := .row } (exPol (fun i => i) (fun _ => 0) 2) true (initState 1)
+    [(.batch (ctxs 2) [[.int 0, .int 1], [.int 0, .int 1]], .list .tmp [.int 1, .int 2]),
+     (.batch (ctxs 2) [[.int 0, .int 1], [.int 0, .int 1]], .list .tmp [.int 1, .int 2])] = true := by decide
 
 end Coba.C15
